@@ -237,6 +237,11 @@ Fixpoint mismatches_c12 (_ : nat) (cs : list (nat * c12_case)) : list (nat * lis
                    end
   end.
 
+(** The run's own table of exported methods of sqlgen.DB (extracted by the harness from the tree under test):
+    index 0, component 6 when the model does not cover it ("method outside the model"). *)
+Definition methods_mismatch (_ : nat) (gen : list (string * (bool * bool * bool))) : list (nat * list nat) :=
+  if methods_covered gen then [] else [(0, [6])].
+
 (** ** C10 *)
 
 (** One caller of a C10 case: Query / FullScanQuery ([cl_row] = false) or QueryRow, with its SelectOptions.
